@@ -62,8 +62,19 @@ where
     storage: S,
 }
 
+#[cfg(not(metrics_verif))]
 fn shard_count() -> usize {
     std::thread::available_parallelism().map(|x| x.get()).unwrap_or(1).next_power_of_two()
+}
+
+/// Verification builds create millions of registries per process: the operating system is asked for the
+/// parallelism once per process (the same expression), not on every construction.
+#[cfg(metrics_verif)]
+fn shard_count() -> usize {
+    static N: std::sync::OnceLock<usize> = std::sync::OnceLock::new();
+    *N.get_or_init(|| {
+        std::thread::available_parallelism().map(|x| x.get()).unwrap_or(1).next_power_of_two()
+    })
 }
 
 impl Registry<Key, AtomicStorage> {
